@@ -151,7 +151,7 @@ PROPS = {
         "native_cex": "c11_value_order_replay",
         "native_thorough": "c11_value_order_replay",
         "native_fallback": "c11_value_order_replay",
-        "exclude_functions": {"value": ["Finalizer1::convert_witness", "Finalizer2::convert_witness", "DecodeFinalizer::convert_witness"]},
+        "exclude_functions": {"value": ["Finalizer1::convert_witness", "Finalizer2::convert_witness", "DecodeFinalizer::convert_witness", "Value::left__alloc"]},
         "kani": {"quick": ["s07_usize_div_ceil_8"], "thorough": []},
         "level": "proof",
         "level_text": "Unbounded deductive proof (Verus) on the real impls of PartialEq / Ord / Hash for Value: eq returns true exactly when the two "
@@ -176,7 +176,7 @@ PROPS = {
         "native_cex": "c11_value_order_replay",
         "native_thorough": "c11_value_order_replay",
         "native_fallback": "c11_value_order_replay",
-        "exclude_functions": {"value": ["Finalizer1::convert_witness", "Finalizer2::convert_witness", "DecodeFinalizer::convert_witness"]},
+        "exclude_functions": {"value": ["Finalizer1::convert_witness", "Finalizer2::convert_witness", "DecodeFinalizer::convert_witness", "Value::left__alloc"]},
         "kani": {"quick": ["s07_usize_div_ceil_8"], "thorough": ["c10_copy_bits_bounded"]},
         "fallback": {"copy_bits": ["c10_copy_bits_bounded"]},
         "cex": {"copy_bits": "c10_copy_bits_bounded"},
@@ -364,7 +364,7 @@ PROPS = {
         # the bit-level readers every decoder contract rests on (proved in unit bitstream, shared with C13), and the value
         # decoders RedeemNode::decode reads its witnesses with (unit value: total for EVERY type width, saturated ones included)
         "functions": {"bitstream": ["BitIter::next", "BitIter::read_bit", "BitIter::read_u2", "BitIter::read_u8", "BitIter::read_natural", "BitIter::close"],
-                      "value": ["Value::from_padded_bits", "Value::from_compact_bits", "DecodeFinalizer::convert_witness"]},
+                      "value": ["Value::from_padded_bits", "Value::from_compact_bits", "DecodeFinalizer::convert_witness", "Value::left__alloc"]},
         "native_cex": "c02_codec_replay",
         "native_thorough": "c02_codec_replay",
         "native_fallback": "c02_codec_replay",
